@@ -95,14 +95,45 @@ def find_ts(v, t, out):
             find_ts(x, t[2], out)
 
 
-def judge(ctx, t, v, annot=None):
+def explicit_default(e, t):
+    """Readable literal in which addresses without an entrypoint are spelled with an explicit %default."""
+    p = t[0]
+    if p in ('address', 'contract') and isinstance(e, dict) and 'string' in e and '%' not in e['string']:
+        return {'string': e['string'] + '%default'}
+    if isinstance(e, list):
+        if p in ('list', 'set'):
+            return [explicit_default(x, t[1]) for x in e]
+        if p == 'map':
+            return [{'prim': 'Elt', 'args': [explicit_default(x['args'][0], t[1]), explicit_default(x['args'][1], t[2])]} for x in e]
+        return e
+    if isinstance(e, dict) and 'prim' in e and e.get('args'):
+        a = e['args']
+        if p == 'pair' and e['prim'] == 'Pair':
+            items, tt = [], t
+            for x in a[:-1]:
+                items.append(explicit_default(x, tt[1]))
+                tt = tt[2]
+            items.append(explicit_default(a[-1], tt))
+            return {'prim': 'Pair', 'args': items}
+        if p == 'option' and e['prim'] == 'Some':
+            return {'prim': 'Some', 'args': [explicit_default(a[0], t[1])]}
+        if p == 'or' and e['prim'] in ('Left', 'Right'):
+            return {'prim': e['prim'], 'args': [explicit_default(a[0], t[1] if e['prim'] == 'Left' else t[2])]}
+    return e
+
+
+def judge(ctx, t, v, annot=None, spelled_default=False):
     case = {'type_expr': T.to_micheline(t, annot), 'value': P.render(v, t, 'optimized')}
     tss = set()
     find_ts(v, t, tss)
     tsf = ('|ts:' + '+'.join(sorted(tss - {'in-range'}))) if tss - {'in-range'} else ''
     try:
         cls = D.mk_type(t, annot)
-        obj = cls.from_micheline_value(P.render(v, t, 'optimized'))
+        if spelled_default:
+            obj = cls.from_micheline_value(explicit_default(P.render(v, t, 'readable'), t))
+            ctx.count('values_spelled_with_explicit_default')
+        else:
+            obj = cls.from_micheline_value(P.render(v, t, 'optimized'))
     except Exception as e:
         ctx.case((T.show(t), repr(v)), nontrivial=False)
         return ctx.violation('C11|cannot-build-value|%s|%s%s' % (type(e).__name__, feature(t, v, ''), tsf), repr(e)[:300], case)
@@ -129,6 +160,13 @@ def judge(ctx, t, v, annot=None):
             continue
         if bv != v:
             ctx.violation('C11|roundtrip-differs|%s|%s%s' % (mode, feature(t, v, mode), tsf), 'got %r want %r rendering=%r' % (bv, v, r), mcase)
+            continue
+        try:
+            own = T.comparable(t) and not (back == obj)
+        except Exception:
+            own = False
+        if own:
+            ctx.violation('C11|roundtrip-not-equal-by-own-equality|%s|%s' % (mode, feature(t, v, mode)), 'rendering=%r' % (r,), mcase)
             continue
         want = P.render(v, t, mode)
         try:
@@ -164,6 +202,8 @@ def run(ctx):
             an = safe_annot(random.Random(rng.getrandbits(32)))
             annotate(t, an)
         judge(ctx, t, v, an)
+        if T.contains(t, 'address') and T.comparable(t):
+            judge(ctx, t, v, an, spelled_default=True)
     ctx.require('roundtrips', 300)
     ctx.require('layouts_compared' if not ctx.violations else 'roundtrips', 100)
 
